@@ -326,4 +326,23 @@ PROPS = {
             'runtime half validated by execution: weight-only/fp16 equal up to float32 rounding (rtol 1e-5); dynamic range within |dy_j| <= ||W_j||_1 * max|x| / 254 * 1.05 of the float op on dequantized constants',
             'the constant is read only by the listed consumers and is not a graph output (hypotheses of the performer-level theorem; what the instruction generator emits for a weight-only constant)'],
     },
+    'C07': {
+        'steps': [{'script': 'corr_arith.py', 'timeout': 1500, 'timeout_thorough': 6000},
+                  {'script': 'oracle_c07.py', 'timeout': 1500, 'timeout_thorough': 6000}],
+        'required_theorems': ['C07_calibrated_range_is_not_clipped', 'C07_codes_separate',
+                              'C07_scale_is_positive_and_zero_exact', 'C07_fixed_ranges_cover_codomain'],
+        'rule': ('generated models (30% deep FC/TANH/ADD/MUL chains of up to 10 ops, else 2-5 ops over all supported '
+                 'ops; well-conditioned constants) x static recipes (shipped a8w8 / a16w8, or a uniform a8w8 / a8sw8 / '
+                 'a16w8 rule) calibrated through Quantizer.calibrate on ONE random input per signature, then both models '
+                 'run on that input with all tensors preserved; the ops are walked in execution order and the FIRST op '
+                 'whose result is non-finite, constant while the float tensor spans > 16 steps, or off by more than '
+                 '6 steps + 8% of the largest float activation magnitude is reported, keyed by (op, activation width, '
+                 'weight granularity). non-trivial = tensor compared within tolerance; distinct = distinct (model, tensor, error)'),
+        'trusted_base': COMMON_TB + [
+            'LiteRT integer kernels are outside the repository and the model: their numerics are validated by execution only',
+            'Flocq / Coq Reals for the parameter theorems (axioms as reported); float32 parameter code tied bit-exactly by correspondence A'],
+        'assumptions': [
+            'PARTIAL: proved = the quantizer\'s parameters cannot force clipping, collapse or a wrong zero (ideal arithmetic); the agreement of integer kernels with float execution is a runtime property validated on every generated case with the stated tolerance',
+            'graphs containing RSQRT are excluded from the numeric clause after that op (unbounded error amplification near 0); degenerate constants (all-zero / 1e-6 / 1e4) are excluded (bias saturates int32: C05)'],
+    },
 }
